@@ -33,6 +33,9 @@ CONSTANTS
   MainScript,   \* script of the main thread (thread 0)
   HProg,        \* function: waker id -> [wake |-> actions, final |-> actions] run by its handler on the main
                 \* thread, inside poll_wake (<<"drop", w>>, <<"wake", w>>, <<"poll">>); wakers not in its domain just log
+  GDF,          \* channel cases: the Fwd target drops the ChannelGuard when it is handed its first message
+  ChanRecheck,  \* does the channel's handler look at the closed flag again before each message of a batch?
+                \* (FALSE: the pinned design, one look per batch; TRUE: the repaired one)
   CEcho,        \* channel cases: the Fwd target answers every message below 1000 through the same channel
   OrdSet,       \* ordering passed by BitMap::set's fetch_or   ("SeqCst", "AcqRel", "Release", "Acquire", "Relaxed")
   OrdDrain      \* ordering passed by Leaf::drain's swap
@@ -149,6 +152,8 @@ AfterSet(x, t) ==
                      [e |-> "send_end", v |-> x.th[t].v, res |-> TRUE]), t)
     [] r = "gdrop" ->  \* ChannelGuard drop: Waker dropped inside the buffer lock
          NextOp(Emit(MUnlock([MUnlock(x, t, "DL") EXCEPT !.cq = << >>], t, "CH"), t, [e |-> "guard_drop_end"]), t)
+    [] r = "gdrop_f" -> \* the same from inside the Fwd target: the forwarding loop goes on (user code returns)
+         [Emit(MUnlock([MUnlock(x, t, "DL") EXCEPT !.cq = << >>], t, "CH"), t, [e |-> "guard_drop_end"]) EXCEPT !.th[0].pc = "fwding"]
     [] r = "gdrop_h" -> \* the same from a handler: poll_wake goes on with the collected bits
          ProcessRv(Emit(MUnlock([MUnlock(x, t, "DL") EXCEPT !.cq = << >>, !.th[0].pc = "inpoll"], t, "CH"), t, [e |-> "guard_drop_end"]))
     [] r = "lsend" ->
@@ -379,12 +384,13 @@ RecvCheck(x, t) ==
 \* after acquiring a lock
 Locked(x, t) ==
   LET r == x.th[t].ret IN
-  CASE r = "drop" \/ r = "gdropdl" \/ r = "gdropdl_h" \/ r = "exit" \/ r = "hdrop" ->
+  CASE r = "drop" \/ r = "gdropdl" \/ r = "gdropdl_h" \/ r = "gdropdl_f" \/ r = "exit" \/ r = "hdrop" ->
          \* Waker::drop: push the id, then set the bitmap's reserved bit, all under the drop-list lock
          LET w == x.th[t].w
              bit == x.wbit[w]
              x1 == [x EXCEPT !.dropList = Append(@, bit), !.wbit = [k \in DOMAIN @ \ {w} |-> @[k]]]
-         IN StartSet(x1, t, BaseOf(BmOf(bit)), IF r = "gdropdl" THEN "gdrop" ELSE IF r = "gdropdl_h" THEN "gdrop_h" ELSE r)
+         IN StartSet(x1, t, BaseOf(BmOf(bit)), IF r = "gdropdl" THEN "gdrop" ELSE IF r = "gdropdl_h" THEN "gdrop_h"
+                                              ELSE IF r = "gdropdl_f" THEN "gdrop_f" ELSE r)
     [] r = "send" ->
          IF x.copen
          THEN IF x.cq = << >> THEN StartSet([x EXCEPT !.th[t].w = ChanW], t, ChanBit, "send")
@@ -403,6 +409,8 @@ Locked(x, t) ==
          \* close(): waker.take() drops the Waker while the buffer lock is held
          IF x.copen THEN [x EXCEPT !.copen = FALSE, !.th[t].w = ChanW, !.th[t].pc = "lock_dl", !.th[t].ret = "gdropdl"]
          ELSE NextOp(Emit(MUnlock([x EXCEPT !.cq = << >>], t, "CH"), t, [e |-> "guard_drop_end"]), t)
+    [] r = "gdrop_f" ->
+         [x EXCEPT !.copen = FALSE, !.th[t].w = ChanW, !.th[t].pc = "lock_dl", !.th[t].ret = "gdropdl_f"]
     [] r = "gdrop_h" ->
          IF x.copen THEN [x EXCEPT !.copen = FALSE, !.th[t].w = ChanW, !.th[t].pc = "lock_dl", !.th[t].ret = "gdropdl_h"]
          ELSE ProcessRv(Emit(MUnlock([x EXCEPT !.cq = << >>, !.th[0].pc = "inpoll"], t, "CH"), t, [e |-> "guard_drop_end"]))
@@ -428,9 +436,15 @@ Locked(x, t) ==
 FwdNext(x) ==
   IF x.fq = << >>
   THEN IF x.th[0].flag THEN ProcessDel(x, x.th[0].hq) ELSE ProcessRv(x)
+  ELSE IF ChanRecheck /\ Kind = "channel" /\ Head(x.fq).e = "fwd" /\ x.th[0].pc # "frechk_done"
+  THEN \* the closed flag is read again (under the lock) before this message is handed over
+       [x EXCEPT !.th[0].pc = "frechk"]
   ELSE LET ev == Head(x.fq)
-           x1 == Emit([x EXCEPT !.fq = Tail(@)], 0, ev)
-       IN IF CEcho /\ Kind = "channel" /\ ev.e = "fwd" /\ ev.v < 1000
+           x1 == Emit([x EXCEPT !.fq = Tail(@), !.th[0].pc = "inpoll"], 0, ev)
+       IN IF GDF /\ Kind = "channel" /\ ev.e = "fwd" /\ x.copen
+          THEN \* the Fwd target closes the channel: ChannelGuard dropped between two messages of a batch
+               [Emit(x1, 0, [e |-> "guard_drop_begin"]) EXCEPT !.th[0].pc = "lock_ch", !.th[0].ret = "gdrop_f"]
+          ELSE IF CEcho /\ Kind = "channel" /\ ev.e = "fwd" /\ ev.v < 1000
           THEN \* Channel::send from the main thread, inside the forwarding loop (the buffer lock is free there)
                [Emit(x1, 0, [e |-> "send_begin", v |-> ev.v + 1000]) EXCEPT !.th[0].v = ev.v + 1000, !.th[0].pc = "lock_ch", !.th[0].ret = "hsend"]
           ELSE [x1 EXCEPT !.th[0].pc = "fwding"]
@@ -459,6 +473,7 @@ EnabledW(x, t) ==
     [] pc = "lock_ch" -> MFree(x, "CH")
     [] pc = "lock_q" -> MFree(x, "Q")
     [] pc = "hlock" -> MFree(x, IF Kind = "channel" THEN "CH" ELSE "Q")
+    [] pc = "frechk" -> MFree(x, "CH")
     [] pc = "cvwait" -> t \in x.cvn /\ MFree(x, "Q")
     [] pc = "join" -> \A u \in Threads : x.th[u].pc = "done"
     [] OTHER -> FALSE
@@ -487,6 +502,10 @@ Do(x, t) ==
          LET bits == x.dropList
              x1 == MUnlock(MLock([x EXCEPT !.dropList = << >>], 0, "DL"), 0, "DL")
          IN ProcessDel([x1 EXCEPT !.th[0].pc = "inpoll"], bits)
+    [] pc = "frechk" ->
+         LET x1 == MUnlock(MLock(x, 0, "CH"), 0, "CH") IN
+         IF x.copen THEN FwdNext([x1 EXCEPT !.th[0].pc = "frechk_done"])
+         ELSE FwdNext([x1 EXCEPT !.fq = << >>, !.th[0].pc = "inpoll"])     \* closed meanwhile: the rest of the batch is discarded
     [] pc = "hlock" -> HandlerLocked(MLock([x EXCEPT !.th[0].pc = "inpoll"], 0, IF Kind = "channel" THEN "CH" ELSE "Q"))
     [] pc = "cvwait" -> \* re-acquires the mutex inside Condvar::wait (no separate lock record)
                         RecvCheck(Lo([x EXCEPT !.mtx = @ @@ ("Q" :> t)], t, [k |-> "cvwake"]), t)
